@@ -25,7 +25,7 @@ class MasterSpec(statex.Spec):
         return world.canon()
 
     def dev_cost(self, event):
-        return 0 if event[-1] else 1
+        return 0 if event[-1] is True else 1
 
 
 ASSUMPTIONS = [
